@@ -82,3 +82,10 @@ func VerifNewCacheStream(path string, cacheGop bool) *Stream {
 	s.cache = newH264CacheForVerif(cacheGop)
 	return s
 }
+
+// VerifNewBareStreamSDP is VerifNewBareStream with an SDP text (what DESCRIBE returns).
+func VerifNewBareStreamSDP(path, rawsdp string) *Stream {
+	s := VerifNewBareStream(path)
+	s.rawsdp = rawsdp
+	return s
+}
